@@ -139,8 +139,22 @@ func (d *dagStoreImpl) Create(name string, spec []byte) (string, error) {
 		return "", fmt.Errorf("%w: %s", errDAGFileAlreadyExists, loc)
 	}
 	verifPoint("create.checked", loc)
+	// The file is created exclusively: a request that created the same name
+	// since the check above (and may have edited it already) is not
+	// overwritten.
 	// nolint: gosec
-	return name, os.WriteFile(loc, spec, 0644)
+	f, err := os.OpenFile(loc, os.O_WRONLY|os.O_CREATE|os.O_EXCL, 0644)
+	if errors.Is(err, fs.ErrExist) {
+		return "", fmt.Errorf("%w: %s", errDAGFileAlreadyExists, loc)
+	}
+	if err != nil {
+		return "", err
+	}
+	_, err = f.Write(spec)
+	if cerr := f.Close(); err == nil {
+		err = cerr
+	}
+	return name, err
 }
 
 func (d *dagStoreImpl) Delete(name string) error {
